@@ -208,7 +208,9 @@ namespace ST
         {
             const size_t cmplen = std::min<size_t>(lsize, rsize);
             const int cmp = traits_t::compare(left, right, cmplen);
-            return cmp ? cmp : static_cast<int>(lsize - rsize);
+            if (cmp)
+                return cmp;
+            return (lsize < rsize) ? -1 : (lsize > rsize) ? 1 : 0;
         }
 
         ST_NODISCARD
